@@ -141,13 +141,17 @@ func (s *Scenario) execPolicy(starve, suspend string) (*zzvs.Result, string) {
 	}
 	var buf bytes.Buffer
 	var err error
+	var atReturn *string
 	c := s.Call
 	body := func() {
+		c.prior()
 		var w io.Writer = &buf
 		if wrap != nil {
 			w = wrap(w)
 		}
 		err = c.Run(w)
+		s := buf.String()
+		atReturn = &s
 	}
 	var r *zzvs.Result
 	if suspend != "" {
@@ -164,6 +168,9 @@ func (s *Scenario) execPolicy(starve, suspend string) (*zzvs.Result, string) {
 		engine.EngineError("watchdog expired in %s (starving %s suspending %s)", c.Cmd, starve, suspend)
 	}
 	o := Obs{Outcome: r.Outcome, Out: buf.String()}
+	if atReturn != nil {
+		o.Out = *atReturn // the output as it is when the command returns
+	}
 	if r.Outcome == "returned" && err != nil {
 		o.HasErr, o.Err = true, err.Error()
 	}
@@ -280,8 +287,12 @@ func planSched(scens []Scenario, depth int, judge func(sc *Scenario, st *engine.
 		if mode.Unbounded || (!mode.Delay && mode.P >= 2) {
 			// iterative bounding: everything within one preemption first (cheap, and the first
 			// counterexample found is the simplest), then the scenario's full mode
-			b, _ := json.Marshal(schedJob{Scen: i, Mode: "P1M1", Prefix: ""})
-			first = append(first, string(b))
+			ex1 := engine.NewExplorer(fn, engine.Opts{P: 1, M: 1})
+			for _, p := range ex1.Children(nil) { // split at the first level so that long scenarios are shared out
+				b, _ := json.Marshal(schedJob{Scen: i, Mode: "P1M1", Prefix: prefixStr(p)})
+				first = append(first, string(b))
+			}
+			accountStats(sc, ex1.St, pre)
 			pre.Count("mode_P1M1_prepass_scenarios", 1)
 		}
 		engine.DeterminismGuard(fn, nil)
@@ -435,7 +446,9 @@ func canonJudge(prefix string) func(sc *Scenario, st *engine.Stats, res *engine.
 	return func(sc *Scenario, st *engine.Stats, res *engine.JobResult) {
 		want, ok := canon[sc.Name]
 		if !ok {
-			_, want = sc.execFn()(nil)
+			plain := *sc
+			plain.Call.PriorCall, plain.Call.PriorFailedCall = false, false // a call's result must not depend on earlier calls
+			_, want = plain.execFn()(nil)
 			canon[sc.Name] = want
 		}
 		for obs, n := range st.Outcomes {
@@ -554,6 +567,16 @@ func schedPair(name string, mk func(n int) Call, extraSizes ...int) []Scenario {
 			mode = "D1M0" // map orders are varied on the 4-record input; a 70-key map would multiply the runs by 140
 		}
 		out = append(out, Scenario{Name: fmt.Sprintf("%s/n%d/t2", name, n), Family: name, Call: c, Mode: mode})
+	}
+	// operation history: the same call made twice in one process; the second must give what a first call gives
+	{
+		c := mk(4)
+		if c.Threads == 0 {
+			c.Threads = 2
+		}
+		c.NCPU = 2
+		c.PriorCall = true
+		out = append(out, Scenario{Name: fmt.Sprintf("%s/n4/t2/second-call", name), Family: name, Call: c, Mode: "D1M0"})
 	}
 	// output writes as visible operations (3 records, every execution with <=2 non-default choices): no write
 	// may still be pending when the command returns, whatever the schedule
